@@ -188,7 +188,7 @@ def run_udp(sim, params):
                             % (type(e).__module__, type(e).__name__, e, core.exc_line(e), rname, sname, desc))
         if rname == "lost" and sname == "none" and not isinstance(e, nfc.clf.TimeoutError):
             raise Violation("mapping", "udp lost->%s" % type(e).__name__, "a lost answer gave %r, documented TimeoutError; %r" % (e, desc))
-        if rname == "rfoff" and role.startswith("target") and not isinstance(e, nfc.clf.BrokenLinkError):
+        if rname == "rfoff" and sname == "none" and role.startswith("target") and not isinstance(e, nfc.clf.BrokenLinkError):
             raise Violation("mapping", "udp rfoff->%s" % type(e).__name__, "RFOFF as target gave %r, documented BrokenLinkError; %r" % (e, desc))
     sim.cls("udp", role, rname, sname, oc)
     if sim.sample is None:
